@@ -27,7 +27,7 @@ RULE = ("every ordered triple (a,b,c) of units of one category (real space 6, re
         "triple plus sampling (log-uniform 1e-6..1e6, either sign), offset (0, +-log-uniform) and an axis class "
         "(LinearAxis/RealSpaceAxis/ScanAxis/ReciprocalSpaceAxis); non-trivial = a != b; distinct = distinct case signature")
 CLAUSES = ["defined", "identity", "inverse", "compose", "axis-inverse", "axis-compose", "axis-factor"]
-QUICK = dict(n=1500, time=20)
+QUICK = dict(n=1500, time=40)
 THOROUGH = dict(n=40000, time=60, shards=4)
 EXHAUSTIVE = True
 ASSUMPTIONS = ["the unit categories are read from abtem.core.units._unit_categories (energy is excluded: no conversion between "
